@@ -28,6 +28,11 @@ def instances(tier):
         # a failing encoder leaves part of a record behind: the acknowledged records around it stay whole and in order
         I("pre_encfail", trig="pre", count=2, sizes=(1, 2), maxrec=4, encfail=1, restart=1, pre="PreNone"),
         I("post_encfail", trig="post", count=2, sizes=(1, 2), maxrec=3, encfail=1, crash=1, pre="PreNone"),
+        # a reconfiguration: the successor appender is built while its predecessor is alive and still acknowledges a record
+        I("size_overlap", trig="size", count=2, limit=3, sizes=(1, 2), maxrec=4, overlap=2, restart=1),
+        I("pre_overlap", trig="pre", count=2, sizes=(1, 2), maxrec=4, overlap=1, pre="PreNone"),
+        I("post_overlap", trig="post", count=1, sizes=(1, 2), maxrec=4, overlap=2, pre="PreNone"),
+        I("startup_overlap", trig="startup", count=2, limit=1, sizes=(1, 2), pre="PreB", maxrec=3, overlap=1, restart=1),
         # larger, model-checking only (all perturbations on, no history)
         I("big_size", trig="size", base=1, count=2, limit=2, sizes=(1, 3), maxrec=6, faults=1, crash=1, restart=1,
           obst=1, hist=False),
@@ -50,9 +55,9 @@ def run(tier, replay=None):
     cases = R.run_instances(run, "c05_" + tier, instances(tier), R.has_roll)
     # long behaviours (hundreds of records in one history), sampled by TLC's simulation mode
     deep = 400 if tier == "quick" else 1000
-    R.deep_runs(run, "c05", [R.inst("deep_size", trig="size", count=2, limit=2, sizes=(1, 2, 3), maxrec=deep, faults=6, crash=3, restart=6, obst=4, encfail=4),
+    R.deep_runs(run, "c05", [R.inst("deep_size", trig="size", count=2, limit=2, sizes=(1, 2, 3), maxrec=deep, faults=6, crash=3, restart=6, obst=4, encfail=4, overlap=5),
                         R.inst("deep_pre_t", trig="pre", append=False, count=3, sizes=(1, 2), maxrec=deep, faults=4, crash=2, restart=6, obst=2),
-                        R.inst("deep_post", trig="post", base=1, count=2, sizes=(0, 1, 2), maxrec=deep, faults=4, crash=3, restart=4, obst=2, encfail=3)], 40 if tier == "quick" else 400)
+                        R.inst("deep_post", trig="post", base=1, count=2, sizes=(0, 1, 2), maxrec=deep, faults=4, crash=3, restart=4, obst=2, encfail=3, overlap=5)], 40 if tier == "quick" else 400)
     # concurrent writers: traces of real threads validated against the specification
     R.concurrent_traces(run, "c05", "size", 3, 80 if tier == "quick" else 2000, long=80 if tier == "quick" else 600)
     R.concurrent_traces(run, "c05", "size", 1, 40 if tier == "quick" else 1000)
